@@ -690,6 +690,16 @@ impl<'a, 'ast> Visit<'ast> for R4Find<'a> {
                 }
                 format!("(match {recv} {{ {some}({p}) => {b}, {none_pat} => {none_id} }})")
             }
+            ("map_err", 1) if is_res => {
+                // std: `x.map_err(f)` == `match x { Ok(v) => Ok(v), Err(e) => Err(f(e)) }` (only when listed in //@r4result)
+                let Some((p, b)) = clos(args[0]) else { return };
+                if closure_has_escape(args[0]) {
+                    self.err = Some("R4: closure contains return/?".into());
+                    return;
+                }
+                let p = if p.is_empty() { "_".to_string() } else { p };
+                format!("(match {recv} {{ Ok(__v) => Ok(__v), Err({p}) => Err({b}) }})")
+            }
             ("or_else", 1) if !is_res => {
                 // std: `x.or_else(f)` == `match x { x @ Some(_) => x, None => f() }`
                 if !matches!(args[0], Expr::Closure(_)) {
@@ -1030,7 +1040,8 @@ fn mutself_pass(text: String, is_method: bool, cnt: &mut Counters) -> Result<Str
 // R13: `//@stub N <let-anchor> => <stand_in(args)>` — the initializer expression of ONE `let` statement that
 //      Verus cannot express (e.g. an iterator chain whose closure mutates a captured variable) is replaced by a
 //      call to a named external_body stand-in with an assumed contract. Only a `let` initializer can be replaced,
-//      only by `ident(ident | &ident, ..)`; the original expression text is listed in the map's `dropped` list
+//      only by `ident(ident | &ident | &mut ident, ..)` (`&mut x` when the replaced expression assigns the local `x`, e.g.
+//      through a closure that captures it); the original expression text is listed in the map's `dropped` list
 //      (prefix `R13:`), so the evidence names exactly what was not verified. Runs before R4.
 // ------------------------------------------------------------------------------------------
 #[derive(Default)]
@@ -1060,7 +1071,8 @@ fn is_stub_call(call: &str) -> bool {
     let simple = |e: &Expr| matches!(e, Expr::Path(p) if p.path.get_ident().is_some());
     simple(&c.func)
         && c.args.iter().all(|a| match a {
-            Expr::Reference(r) => r.mutability.is_none() && simple(&r.expr),
+            // `&mut x`: for a closure that assigns a captured local, the stand-in takes that local by mutable reference
+            Expr::Reference(r) => simple(&r.expr),
             e => simple(e),
         })
 }
@@ -1068,7 +1080,7 @@ fn is_stub_call(call: &str) -> bool {
 fn stub_pass(mut text: String, is_method: bool, path: &str, stubs: &[(usize, String, String)], cnt: &mut Counters, dropped: &mut Vec<String>) -> Result<String, String> {
     for (k, anchor, call) in stubs {
         if !is_stub_call(call) {
-            return Err(format!("{path}: //@stub replacement must be `stand_in(ident | &ident, ..)`, got `{call}`"));
+            return Err(format!("{path}: //@stub replacement must be `stand_in(ident | &ident | &mut ident, ..)`, got `{call}`"));
         }
         let mut f = LetFind::default();
         if is_method {
@@ -1093,6 +1105,418 @@ fn stub_pass(mut text: String, is_method: bool, path: &str, stubs: &[(usize, Str
         text = apply_edits(&text, vec![Edit { start: *a, end: *b, rep: format!("/* R13: expression replaced by an assumed stand-in */ {call}") }]);
     }
     Ok(text)
+}
+
+// ------------------------------------------------------------------------------------------
+// R15: `//@inline_eat_while N` — the N-th call `X.eat_while(<closure literal>)` of the function (0-based, source order of
+//      the ORIGINAL text, counting only calls whose argument is a closure literal) is replaced by the BODY OF
+//      `Cursor::eat_while`, TAKEN FROM cursor.rs OF THE SAME TREE at generation time (never typed by hand), with
+//          self            ->  X                                   (X: a local / field path, so re-evaluation is harmless)
+//          predicate(E)    ->  ({ let <closure param> = E; <closure body> })
+//          return;         ->  break;                              (only directly inside the loop that ends the body)
+//      Needed because Verus rejects closures that mutate a captured variable (`is_ascii = false` in the identifier
+//      scanners): after inlining the mutation is an ordinary assignment in the function's own loop.
+//      Soundness: `Cursor::eat_while` is an inherent method (static dispatch), so the call IS an execution of that body
+//      with `self := X` and `predicate := the closure`; a non-`move` closure borrows what it captures, so running its
+//      body in place of each call has the same effect on the captured variables; `return` directly inside the final
+//      loop of a `()` function only leaves that loop. `Cursor::eat_while` itself stays proved in U02 (cursor.vx).
+//      The shape conditions below are checked; any violation (eat_while restructured, `move` closure, closure with
+//      `return`/`?`, name capture) is exit 2 (lost anchor / unsupported), never a verdict.
+//      The inlined loop is a loop of the function like any other: it needs a `//@loop` invariant, and it is numbered
+//      in source order of the REWRITTEN text (it takes the ordinal the call site has among the function's loops; every
+//      later loop moves up by one). Counted as `R15_inline_eat_while`.
+// ------------------------------------------------------------------------------------------
+struct EatWhileDef {
+    /// cleaned text of the method (pass 1 applied)
+    text: String,
+    block: Range<usize>,
+    self_uses: Vec<Range<usize>>,
+    returns: Vec<Range<usize>>,
+    pred_calls: Vec<(Range<usize>, Range<usize>)>, // (call, argument)
+    bound: Vec<String>,
+}
+
+fn pat_idents(p: &syn::Pat, out: &mut Vec<String>) {
+    struct V<'o>(&'o mut Vec<String>);
+    impl<'ast, 'o> Visit<'ast> for V<'o> {
+        fn visit_pat_ident(&mut self, p: &'ast syn::PatIdent) {
+            self.0.push(p.ident.to_string());
+            visit::visit_pat_ident(self, p);
+        }
+    }
+    V(out).visit_pat(p);
+}
+
+fn ident_tokens(ts: proc_macro2::TokenStream, out: &mut Vec<String>) {
+    for t in ts {
+        match t {
+            proc_macro2::TokenTree::Ident(i) => out.push(i.to_string()),
+            proc_macro2::TokenTree::Group(g) => ident_tokens(g.stream(), out),
+            _ => {}
+        }
+    }
+}
+
+fn analyse_eat_while(text: String) -> Result<EatWhileDef, String> {
+    let lost = |m: &str| format!("lost anchor: R15: Cursor::eat_while {m}");
+    let ast: syn::ImplItemFn = syn::parse_str(&text).map_err(|e| format!("reparse (R15): {e}"))?;
+    if !matches!(ast.sig.output, syn::ReturnType::Default) || ast.sig.asyncness.is_some() || ast.sig.constness.is_some() {
+        return Err(lost("no longer returns `()`"));
+    }
+    let ins: Vec<&syn::FnArg> = ast.sig.inputs.iter().collect();
+    if ins.len() != 2 {
+        return Err(lost("no longer takes (&mut self, predicate)"));
+    }
+    match ins[0] {
+        syn::FnArg::Receiver(r) if r.reference.is_some() && r.mutability.is_some() => {}
+        _ => return Err(lost("no longer takes `&mut self`")),
+    }
+    let pred = match ins[1] {
+        syn::FnArg::Typed(pt) => match &*pt.pat {
+            syn::Pat::Ident(pi) if pi.by_ref.is_none() && pi.subpat.is_none() => pi.ident.to_string(),
+            _ => return Err(lost("predicate parameter is not a plain identifier")),
+        },
+        _ => return Err(lost("no predicate parameter")),
+    };
+    // the body must end with a loop statement; `return;` may only occur directly inside that loop
+    let Some(last) = ast.block.stmts.last() else { return Err(lost("has an empty body")) };
+    let last_loop = match last {
+        Stmt::Expr(e @ (Expr::While(_) | Expr::Loop(_)), _) => br(e),
+        _ => return Err(lost("no longer ends with a `while`/`loop` statement")),
+    };
+    struct V<'p> {
+        pred: &'p str,
+        last_loop: Range<usize>,
+        loop_depth: usize,
+        in_last: bool,
+        in_closure: usize,
+        self_uses: Vec<Range<usize>>,
+        returns: Vec<Range<usize>>,
+        pred_calls: Vec<(Range<usize>, Range<usize>)>,
+        bound: Vec<String>,
+        free: Vec<String>,
+        err: Option<String>,
+    }
+    impl<'ast, 'p> Visit<'ast> for V<'p> {
+        fn visit_pat(&mut self, p: &'ast syn::Pat) {
+            pat_idents(p, &mut self.bound);
+        }
+        fn visit_expr(&mut self, e: &'ast Expr) {
+            match e {
+                Expr::While(_) | Expr::Loop(_) | Expr::ForLoop(_) => {
+                    let is_last = br(e) == self.last_loop;
+                    if is_last {
+                        self.in_last = true;
+                    }
+                    self.loop_depth += 1;
+                    visit::visit_expr(self, e);
+                    self.loop_depth -= 1;
+                    if is_last {
+                        self.in_last = false;
+                    }
+                    return;
+                }
+                Expr::Closure(_) => {
+                    self.in_closure += 1;
+                    visit::visit_expr(self, e);
+                    self.in_closure -= 1;
+                    return;
+                }
+                Expr::Return(r) => {
+                    if r.expr.is_some() || !self.in_last || self.loop_depth != 1 || self.in_closure != 0 {
+                        self.err = Some("has a `return` that is not directly inside its final loop".into());
+                    }
+                    self.returns.push(br(e));
+                }
+                Expr::Try(_) | Expr::Macro(_) | Expr::Async(_) | Expr::Await(_) | Expr::Yield(_) => {
+                    self.err = Some("contains `?`, a macro call or async code".into());
+                }
+                Expr::Break(b) if b.label.is_some() => self.err = Some("contains a labelled break".into()),
+                Expr::Continue(c) if c.label.is_some() => self.err = Some("contains a labelled continue".into()),
+                Expr::Call(c) => {
+                    if let Expr::Path(p) = &*c.func {
+                        if p.path.is_ident(self.pred) {
+                            if c.args.len() != 1 {
+                                self.err = Some("calls its predicate with other than one argument".into());
+                            } else {
+                                self.pred_calls.push((br(e), br(&c.args[0])));
+                            }
+                            // the argument is visited, the callee path is not (it is not a free use of the predicate)
+                            for a in &c.args {
+                                self.visit_expr(a);
+                            }
+                            return;
+                        }
+                    }
+                }
+                Expr::Path(p) => {
+                    if p.qself.is_none() {
+                        if let Some(id) = p.path.get_ident() {
+                            let n = id.to_string();
+                            if n == "self" {
+                                self.self_uses.push(br(e));
+                            } else if n == self.pred {
+                                self.err = Some("uses its predicate other than by calling it".into());
+                            } else {
+                                self.free.push(n);
+                            }
+                        }
+                    }
+                }
+                _ => {}
+            }
+            visit::visit_expr(self, e);
+        }
+        fn visit_stmt(&mut self, s: &'ast Stmt) {
+            if matches!(s, Stmt::Item(_) | Stmt::Macro(_)) {
+                self.err = Some("contains a nested item or a macro statement".into());
+            }
+            visit::visit_stmt(self, s);
+        }
+    }
+    let mut v = V { pred: &pred, last_loop, loop_depth: 0, in_last: false, in_closure: 0, self_uses: vec![], returns: vec![], pred_calls: vec![], bound: vec![], free: vec![], err: None };
+    v.visit_block(&ast.block);
+    if let Some(e) = v.err {
+        return Err(lost(&e));
+    }
+    if v.pred_calls.is_empty() {
+        return Err(lost("never calls its predicate"));
+    }
+    // every name the body reads must be bound by the body itself (a name resolved in cursor.rs could mean something
+    // else at the call site)
+    for f in &v.free {
+        if !v.bound.contains(f) {
+            return Err(lost(&format!("reads the outer name `{f}`")));
+        }
+    }
+    let block = br(&ast.block);
+    let (self_uses, returns, pred_calls, bound) = (v.self_uses, v.returns, v.pred_calls, v.bound);
+    Ok(EatWhileDef { text, block, self_uses, returns, pred_calls, bound })
+}
+
+/// `a`, `a.b.c`: an expression that names a place and has no effects (evaluating it several times is harmless)
+fn place_root(e: &Expr) -> Option<String> {
+    match e {
+        Expr::Path(p) if p.qself.is_none() => p.path.get_ident().map(|i| i.to_string()),
+        Expr::Field(f) => place_root(&f.base),
+        Expr::Paren(p) => place_root(&p.expr),
+        _ => None,
+    }
+}
+
+struct EatWhileCalls {
+    /// (position of the method name, statement range if the call is an expression statement, receiver, closure)
+    calls: Vec<(usize, Option<Range<usize>>, Range<usize>, syn::ExprClosure)>,
+}
+impl EatWhileCalls {
+    fn call_of(e: &Expr) -> Option<&syn::ExprMethodCall> {
+        if let Expr::MethodCall(mc) = e {
+            if mc.method == "eat_while" && mc.args.len() == 1 && matches!(mc.args[0], Expr::Closure(_)) {
+                return Some(mc);
+            }
+        }
+        None
+    }
+}
+impl<'ast> Visit<'ast> for EatWhileCalls {
+    fn visit_stmt(&mut self, s: &'ast Stmt) {
+        if let Stmt::Expr(e, Some(_)) = s {
+            if let Some(mc) = Self::call_of(e) {
+                let Expr::Closure(c) = &mc.args[0] else { unreachable!() };
+                self.calls.push((br(&mc.method).start, Some(br(s)), br(&*mc.receiver), c.clone()));
+                // nested calls (inside the receiver or the closure) are still counted
+                self.visit_expr(&mc.receiver);
+                self.visit_expr(&c.body);
+                return;
+            }
+        }
+        visit::visit_stmt(self, s);
+    }
+    fn visit_expr(&mut self, e: &'ast Expr) {
+        if let Some(mc) = Self::call_of(e) {
+            let Expr::Closure(c) = &mc.args[0] else { unreachable!() };
+            self.calls.push((br(&mc.method).start, None, br(&*mc.receiver), c.clone()));
+        }
+        visit::visit_expr(self, e);
+    }
+}
+
+fn inline_eat_while_pass(text: String, is_method: bool, path: &str, ns: &[usize], def: &EatWhileDef, cnt: &mut Counters) -> Result<String, String> {
+    let mut f = EatWhileCalls { calls: vec![] };
+    if is_method {
+        let ast: syn::ImplItemFn = syn::parse_str(&text).map_err(|e| format!("reparse (R15): {e}"))?;
+        f.visit_block(&ast.block);
+    } else {
+        let ast: syn::ItemFn = syn::parse_str(&text).map_err(|e| format!("reparse (R15): {e}"))?;
+        f.visit_block(&ast.block);
+    }
+    f.calls.sort_by_key(|c| c.0);
+    let mut seen = HashSet::new();
+    let mut edits = vec![];
+    for n in ns {
+        if !seen.insert(*n) {
+            return Err(format!("{path}: //@inline_eat_while {n} given twice"));
+        }
+        let Some((_, stmt, recv, clos)) = f.calls.get(*n) else {
+            return Err(format!("lost anchor: {path}: no call #{n} of the form `X.eat_while(<closure literal>)` (R15)"));
+        };
+        let Some(stmt) = stmt else {
+            return Err(format!("{path}: R15: call #{n} of eat_while is not an expression statement"));
+        };
+        let recv_txt = text[recv.clone()].to_string();
+        let recv_expr: Expr = syn::parse_str(&recv_txt).map_err(|e| format!("reparse (R15 receiver): {e}"))?;
+        let Some(root) = place_root(&recv_expr) else {
+            return Err(format!("{path}: R15: receiver `{recv_txt}` of eat_while call #{n} is not a plain place (ident or field path)"));
+        };
+        if clos.capture.is_some() || clos.asyncness.is_some() || clos.movability.is_some() || clos.constness.is_some() {
+            return Err(format!("{path}: R15: `move`/async closure passed to eat_while call #{n}"));
+        }
+        if clos.inputs.len() != 1 {
+            return Err(format!("{path}: R15: closure of eat_while call #{n} does not take exactly one parameter"));
+        }
+        let (ppat, pty) = match &clos.inputs[0] {
+            syn::Pat::Type(pt) => (&*pt.pat, Some(text[br(&*pt.ty)].to_string())),
+            p => (p, None),
+        };
+        let pname = match ppat {
+            syn::Pat::Ident(pi) if pi.by_ref.is_none() && pi.subpat.is_none() => pi.ident.to_string(),
+            _ => return Err(format!("{path}: R15: closure parameter of eat_while call #{n} is not a plain identifier")),
+        };
+        let pmut = matches!(ppat, syn::Pat::Ident(pi) if pi.mutability.is_some());
+        if closure_has_escape(&clos.body) {
+            return Err(format!("{path}: R15: closure of eat_while call #{n} contains `return`/`?`"));
+        }
+        // hygiene: a name bound inside eat_while's body must not capture a name the closure body or the receiver uses
+        let mut used = vec![];
+        use quote::ToTokens;
+        ident_tokens(clos.body.to_token_stream(), &mut used);
+        for b in &def.bound {
+            if (*b != pname && used.contains(b)) || *b == root {
+                return Err(format!("{path}: R15: the name `{b}` bound inside Cursor::eat_while would capture a name used at call #{n}"));
+            }
+        }
+        // (the predicate parameter's own name disappears from the inlined text: it binds nothing there)
+        let body_txt = text[br(&*clos.body)].to_string();
+        let bind = format!("let {}{pname}{} = ", if pmut { "mut " } else { "" }, pty.map(|t| format!(": {t}")).unwrap_or_default());
+        // build the inlined block from eat_while's own text
+        let mut inner = vec![];
+        for r in &def.self_uses {
+            inner.push(Edit { start: r.start, end: r.end, rep: recv_txt.clone() });
+        }
+        for r in &def.returns {
+            inner.push(Edit { start: r.start, end: r.end, rep: "break".into() });
+        }
+        for (call, arg) in &def.pred_calls {
+            // the argument text may itself contain `self`: apply the self-substitution inside it by hand
+            let mut arg_edits = vec![];
+            for r in &def.self_uses {
+                if r.start >= arg.start && r.end <= arg.end {
+                    arg_edits.push(Edit { start: r.start - arg.start, end: r.end - arg.start, rep: recv_txt.clone() });
+                }
+            }
+            let arg_txt = apply_edits(&def.text[arg.clone()], arg_edits);
+            inner.push(Edit { start: call.start, end: call.end, rep: format!("({{ {bind}{arg_txt}; {body_txt} }})") });
+        }
+        let full = apply_edits(&def.text, inner);
+        // the block's extent in the edited text: everything from its opening brace to the end of the method text
+        let block_txt = full[def.block.start..].trim_end();
+        cnt.bump("R15_inline_eat_while");
+        edits.push(Edit {
+            start: stmt.start,
+            end: stmt.end,
+            rep: format!("/* R15: `{recv_txt}.eat_while(<closure>)` replaced by the body of Cursor::eat_while (cursor.rs of the same tree) */ {block_txt}"),
+        });
+    }
+    Ok(apply_edits(&text, edits))
+}
+
+// ------------------------------------------------------------------------------------------
+// R17: `//@enumerate` — `for (I, P) in E.enumerate() { B }` (I a plain identifier) becomes
+//          { let mut I__n: usize = 0; for P in E { let I = I__n; I__n += 1; B } }
+//      Verus has no specification of `core::iter::Enumerate`. The rewritten text is std's definition of
+//      `Enumerate::next` (`let a = self.iter.next()?; let i = self.count; self.count += 1; Some((i, a))`) unfolded
+//      into the loop: the counter is read and incremented right after the inner iterator yielded an element and before
+//      the body runs, so `continue` / `break` in B see the same counter values; `+= 1` carries the same overflow check
+//      (`Enumerate::next` inherits the caller crate's overflow checks) and becomes a proof obligation. The loop keeps
+//      its ordinal for `//@loop` / `//@forghost`. Only unlabelled loops with the pattern `(ident, P)`; counted per
+//      occurrence as R17_enumerate. Trusted: that std definition (A4).
+// ------------------------------------------------------------------------------------------
+struct R17Find<'t> {
+    found: Option<Vec<Edit>>,
+    err: Option<String>,
+    text: &'t str,
+}
+impl<'ast, 't> Visit<'ast> for R17Find<'t> {
+    fn visit_expr_for_loop(&mut self, f: &'ast syn::ExprForLoop) {
+        visit::visit_expr_for_loop(self, f);
+        if self.found.is_some() || self.err.is_some() {
+            return;
+        }
+        let Expr::MethodCall(mc) = &*f.expr else { return };
+        if mc.method != "enumerate" || !mc.args.is_empty() || mc.turbofish.is_some() {
+            return;
+        }
+        let bad = |m: &str| Some(format!("R17: `for .. in ..enumerate()` {m}"));
+        if f.label.is_some() {
+            self.err = bad("is labelled");
+            return;
+        }
+        let syn::Pat::Tuple(pt) = &*f.pat else {
+            self.err = bad("does not destructure `(index, item)`");
+            return;
+        };
+        if pt.elems.len() != 2 {
+            self.err = bad("does not destructure `(index, item)`");
+            return;
+        }
+        let idx = match &pt.elems[0] {
+            syn::Pat::Ident(pi) if pi.by_ref.is_none() && pi.subpat.is_none() && pi.mutability.is_none() => pi.ident.to_string(),
+            _ => {
+                self.err = bad("index pattern is not a plain identifier");
+                return;
+            }
+        };
+        let item = self.text[br(&pt.elems[1])].to_string();
+        let recv = br(&*mc.receiver);
+        let whole = br(f);
+        let open = br(&f.body).start;
+        let mut edits = vec![];
+        edits.push(Edit { start: whole.start, end: whole.start, rep: format!("{{ let mut {idx}__n: usize = 0; ") });
+        edits.push(Edit { start: br(&*f.pat).start, end: br(&*f.pat).end, rep: item });
+        // `E.enumerate()` -> `E`
+        edits.push(Edit { start: recv.end, end: br(mc).end, rep: String::new() });
+        edits.push(Edit { start: open + 1, end: open + 1, rep: format!(" let {idx} = {idx}__n; {idx}__n += 1;") });
+        edits.push(Edit { start: whole.end, end: whole.end, rep: " }".into() });
+        self.found = Some(edits);
+    }
+}
+
+fn r17_pass(mut text: String, is_method: bool, cnt: &mut Counters) -> Result<String, String> {
+    for _ in 0..100 {
+        let edits;
+        {
+            let mut f = R17Find { found: None, err: None, text: &text };
+            if is_method {
+                let ast: syn::ImplItemFn = syn::parse_str(&text).map_err(|e| format!("reparse (R17): {e}"))?;
+                f.visit_impl_item_fn(&ast);
+            } else {
+                let ast: syn::ItemFn = syn::parse_str(&text).map_err(|e| format!("reparse (R17): {e}"))?;
+                f.visit_item_fn(&ast);
+            }
+            if let Some(e) = f.err {
+                return Err(e);
+            }
+            edits = f.found;
+        }
+        match edits {
+            None => return Ok(text),
+            Some(e) => {
+                cnt.bump("R17_enumerate");
+                text = apply_edits(&text, e);
+            }
+        }
+    }
+    Err("R17 did not converge".into())
 }
 
 fn eat_ws(text: &str, mut i: usize) -> usize {
@@ -1169,6 +1593,8 @@ pub struct FnSpec {
     pub guards: bool,
     pub refpats: bool,
     pub stubs: Vec<(usize, String, String)>, // R13: (n, let-anchor, stand-in call)
+    pub enumerate: bool,                     // R17
+    pub inline_eat_while: Vec<usize>,        // R15: ordinals of `X.eat_while(<closure literal>)` calls to inline
 }
 
 fn check_ghost_only(what: &str, s: &str) -> Result<(), String> {
@@ -1374,6 +1800,44 @@ impl<'a> Ctx<'a> {
         Ok(out)
     }
 
+    /// R15: the definition of `Cursor::eat_while` in cursor.rs of the tree being extracted (pass 1 applied)
+    fn eat_while_def(&mut self) -> Result<EatWhileDef, String> {
+        const FILE: &str = "cursor.rs";
+        self.load(FILE)?;
+        let src = &self.sources[FILE];
+        let mut found: Option<Range<usize>> = None;
+        for it in &src.ast.items {
+            if let syn::Item::Impl(im) = it {
+                if im.trait_.is_some() || !self.attrs_on(&im.attrs)? {
+                    continue;
+                }
+                let self_ty = match &*im.self_ty {
+                    syn::Type::Path(p) => p.path.segments.last().map(|s| s.ident.to_string()).unwrap_or_default(),
+                    _ => String::new(),
+                };
+                if self_ty != "Cursor" {
+                    continue;
+                }
+                for ii in &im.items {
+                    if let syn::ImplItem::Fn(f) = ii {
+                        if f.sig.ident == "eat_while" && self.attrs_on(&f.attrs)? {
+                            if found.is_some() {
+                                return Err("R15: Cursor::eat_while is ambiguous in cursor.rs".into());
+                            }
+                            found = Some(br(ii));
+                        }
+                    }
+                }
+            }
+        }
+        let Some(r) = found else { return Err("lost anchor: R15: fn `Cursor::eat_while` not found in cursor.rs".into()) };
+        let text0 = src.text[r].to_string();
+        // pass 1 on the definition (cfg / attributes), without counting its rewrites twice is not possible: they are
+        // counted like those of any other extracted text
+        let text1 = self.clean(&text0, ItemKind::Method, None, false)?;
+        analyse_eat_while(text1)
+    }
+
     pub fn extract_fn(&mut self, fs: &FnSpec) -> Result<Emitted, String> {
         self.load(&fs.file)?;
         let src = &self.sources[&fs.file];
@@ -1443,6 +1907,14 @@ impl<'a> Ctx<'a> {
         let text1 = mutself_pass(text1, is_method, &mut self.cnt)?;
         // pass 1b (R13): stand-ins for `let` initializers outside Verus' reach
         let text1 = if fs.external || fs.stubs.is_empty() { text1 } else { stub_pass(text1, is_method, &fs.path, &fs.stubs, &mut self.cnt, &mut self.dropped)? };
+        // pass 1c (R15): inline Cursor::eat_while (body taken from cursor.rs of the same tree) at the named call sites
+        let text1 = if fs.external || fs.inline_eat_while.is_empty() {
+            text1
+        } else {
+            let def = self.eat_while_def()?;
+            inline_eat_while_pass(text1, is_method, &fs.path, &fs.inline_eat_while, &def, &mut self.cnt)?
+        };
+        let text1 = if fs.enumerate && !fs.external { r17_pass(text1, is_method, &mut self.cnt)? } else { text1 };
         // pass 2 (R4)
         let text2 = if fs.external { text1 } else { r4_pass(text1, is_method, &fs.r4result, &mut self.cnt)? };
         let text2 = if fs.guards && !fs.external { r12_pass(text2, is_method, &mut self.cnt)? } else { text2 };
@@ -1847,6 +2319,7 @@ impl<'a> Gen<'a> {
                                     }
                                     "guards" => fs.guards = true,
                                     "refpats" => fs.refpats = true,
+                                    "enumerate" => fs.enumerate = true,
                                     "open" => {
                                         for m in ps[1..].iter().flat_map(|x| x.split(',')) {
                                             if !m.is_empty() {
@@ -1876,6 +2349,10 @@ impl<'a> Gen<'a> {
                                         let rest = rest[ps[1].len()..].trim();
                                         let (anchor, call) = rest.split_once("=>").ok_or("//@stub N <let-anchor> => <call>")?;
                                         fs.stubs.push((n, anchor.trim().to_string(), call.trim().to_string()));
+                                    }
+                                    "inline_eat_while" => {
+                                        let n: usize = ps.get(1).and_then(|x| x.parse().ok()).ok_or("//@inline_eat_while N")?;
+                                        fs.inline_eat_while.push(n);
                                     }
                                     "forghost" => {
                                         let n: usize = ps.get(1).and_then(|x| x.parse().ok()).ok_or("//@forghost N id")?;
@@ -2005,6 +2482,7 @@ impl<'a> Gen<'a> {
                         self.trusted.push(d.trim_start().strip_prefix("trusted").unwrap_or("").trim().to_string());
                     }
                     "expanded" => self.expanded_directive(&parts)?,
+                    "phf_spec" => self.phf_spec_directive(&parts)?,
                     // `//@unless_expanded <Name>` ... `//@endunless`: template text used only while <Name> has NOT been
                     // taken from the expansion by an earlier //@expanded (stand-in declarations of generated items)
                     "unless_expanded" => {
@@ -2156,7 +2634,7 @@ impl<'a> Ctx<'a> {
         // keep only the item kinds the extractor can select (data items and impl blocks): their text is copied verbatim
         let mut ftext = String::new();
         for it in flat {
-            if matches!(it, syn::Item::Struct(_) | syn::Item::Enum(_) | syn::Item::Const(_) | syn::Item::Type(_) | syn::Item::Impl(_)) {
+            if matches!(it, syn::Item::Struct(_) | syn::Item::Enum(_) | syn::Item::Const(_) | syn::Item::Type(_) | syn::Item::Impl(_) | syn::Item::Static(_)) {
                 ftext.push_str(&text[br(it)]);
                 ftext.push_str("\n");
             }
@@ -2185,6 +2663,78 @@ impl<'a> Ctx<'a> {
 }
 
 impl<'a> Gen<'a> {
+    /// R8 (key lists): `//@phf_spec <STATIC> <spec_fn>` — the `entries: &[("KEY", Value), ..]` list of the generated
+    /// `static <STATIC>: phf::Map<&'static str, V>` (output of the crate's derive macro, from the macro expansion of the same
+    /// tree) is emitted as a ghost lookup table `pub open spec fn <spec_fn>(s: Seq<char>) -> Option<V>` (an if-else chain in
+    /// entry order; a key is spelled as `s.len() == n && s[0] == 'K' && ..`, values are copied verbatim). Nothing else of the static is used: that
+    /// phf's `get` finds exactly these entries stays an assumption of the unit (A5). Counted as R8_phf_entries.
+    fn phf_spec_directive(&mut self, parts: &[&str]) -> Result<(), String> {
+        let (name, spec_fn) = (parts.get(1).ok_or("//@phf_spec <STATIC> <spec_fn>")?, parts.get(2).ok_or("//@phf_spec <STATIC> <spec_fn>")?);
+        self.ctx.load_expanded()?;
+        let src = &self.ctx.sources[EXPANDED_FILE];
+        let mut found: Option<&syn::ItemStatic> = None;
+        for it in &src.ast.items {
+            if let syn::Item::Static(st) = it {
+                if st.ident == name {
+                    if found.is_some() {
+                        return Err(format!("//@phf_spec: static `{name}` is ambiguous in the expansion"));
+                    }
+                    found = Some(st);
+                }
+            }
+        }
+        let Some(st) = found else { return Err(format!("lost anchor: static `{name}` not found in the macro expansion")) };
+        let lost = |m: &str| format!("lost anchor: //@phf_spec {name}: {m}");
+        // value type: second generic argument of `phf::Map<K, V>`
+        let vty = match &*st.ty {
+            syn::Type::Path(tp) => match tp.path.segments.last().map(|s| (&s.ident, &s.arguments)) {
+                Some((id, syn::PathArguments::AngleBracketed(a))) if id == "Map" && a.args.len() == 2 => src.text[br(&a.args[1])].to_string(),
+                _ => return Err(lost("its type is not `phf::Map<K, V>`")),
+            },
+            _ => return Err(lost("its type is not `phf::Map<K, V>`")),
+        };
+        let Expr::Struct(es) = &*st.expr else { return Err(lost("its initializer is not a struct literal")) };
+        let Some(fv) = es.fields.iter().find(|f| matches!(&f.member, syn::Member::Named(n) if n == "entries")) else {
+            return Err(lost("no `entries` field"));
+        };
+        let arr = match &fv.expr {
+            Expr::Reference(r) => match &*r.expr {
+                Expr::Array(a) => a,
+                _ => return Err(lost("`entries` is not `&[..]`")),
+            },
+            _ => return Err(lost("`entries` is not `&[..]`")),
+        };
+        let mut body = String::new();
+        let mut n = 0usize;
+        for el in &arr.elems {
+            let Expr::Tuple(t) = el else { return Err(lost("an entry is not a `(key, value)` tuple")) };
+            if t.elems.len() != 2 {
+                return Err(lost("an entry is not a `(key, value)` tuple"));
+            }
+            let Expr::Lit(syn::ExprLit { lit: syn::Lit::Str(k), .. }) = &t.elems[0] else { return Err(lost("a key is not a string literal")) };
+            // `s == "KEY"` spelled as length + characters (no sequence literals: cheap for the solver)
+            let mut key = format!("s.len() == {}", k.value().chars().count());
+            for (i, c) in k.value().chars().enumerate() {
+                let _ = write!(key, " && s[{i}] == {c:?}");
+            }
+            let val = norm(&src.text[br(&t.elems[1])]);
+            let _ = writeln!(body, "    {}if {key} {{ Some({val}) }}", if n == 0 { "" } else { "else " });
+            n += 1;
+        }
+        if n == 0 {
+            return Err(lost("no entries"));
+        }
+        body.push_str("    else { None }\n");
+        let line = st.span().start().line;
+        self.ctx.cnt.bump("R8_phf_entries");
+        let start = self.cur_line();
+        self.emit(&format!("// <<< R8: the {n} (key, value) entries of `static {name}` (phf map generated by the crate's derive macro), taken from the macro expansion of the same tree"));
+        self.emit(&format!("pub open spec fn {spec_fn}(s: Seq<char>) -> Option<{vty}> {{\n{body}}}"));
+        let end = self.cur_line();
+        self.map.push(MapEntry { gen_start: start, gen_end: end, kind: "item", name: (*name).into(), file: EXPANDED_FILE.into(), src_line: line, props: vec![] });
+        Ok(())
+    }
+
     /// `//@expanded [<ItemName> [derive=..]]`
     fn expanded_directive(&mut self, parts: &[&str]) -> Result<(), String> {
         self.ctx.load_expanded()?;
